@@ -93,8 +93,13 @@ def replay_file(path, log):
                 return 1
             log("failing input no longer fails on the current tree")
             return 0
-    log("no failing input recorded; failed obligations were:")
+    log("no failing input recorded (no-failing-input-found); re-running the failed obligations:")
+    vias = []
     for o in rep.get("failed_obligations", []):
         log(f"  {o['id']} via {o['via']}: {o['reason'][:300]}")
-    log(f"re-run: bin/check {rep['property']} --tier {rep['tier']}")
-    return 0
+        vias.append(o["via"].split("@")[0])
+    if not vias:
+        return 0
+    cmd = [os.path.join(VERIF, "bin", "check"), rep["property"], "--tier", rep.get("tier", "quick"), "--only", ",".join(sorted(set(vias)))]
+    p = subprocess.run(cmd, env=ENV)
+    return p.returncode
